@@ -20,8 +20,9 @@ func register(p *Property) {
 	p.Run = func(r *core.Run) {
 		run(r)
 		errorsReachTheCaller(r)
+		rangeCallbacksRunToTheEnd(r)
 	}
-	p.Explain += " (errors-reach-the-caller) error discipline on the code reached from this property's entry points: the error returned by a call is handed on (returned, wrapped, stored, sent, inspected), never dropped or merely compared and logged, except at the enumerated places where a failure needs no reporting."
+	p.Explain += " (errors-reach-the-caller) error discipline on the code reached from this property's entry points: the error returned by a call is handed on (returned, wrapped, stored, sent, inspected), never dropped or merely compared and logged, except at the enumerated places where a failure needs no reporting; (range-callbacks-run-to-the-end) on the same code, a callback handed to a Range-style driver returns false only at the enumerated places."
 	registry[p.ID] = p
 }
 
